@@ -108,6 +108,36 @@ theorem search_eq_matching {s : Site} (h : SInv s) (e : Ent) (he : s.indexOn e =
   · simp [hre]
 
 
+/-- **a search on a nested field returns exactly the children whose text matches** (the child is joined on
+    its own slot), when the engine indexes `Doc` -/
+theorem nsearch_eq_nmatching {s : Site} (h : SInv s) (he : s.indexOn 0 = true) (t : Word) :
+    nsearch s t = nmatching s t := by
+  have key : ∀ c, c ∈ s.rows → c.ent = 0 → s.idx.contains (c.slot, t) = c.text.contains t := by
+    intro c hc hce
+    obtain ⟨_, h1, h2, h3⟩ := h
+    apply Bool.eq_iff_iff.mpr
+    simp only [List.contains_iff_mem]
+    constructor
+    · intro hm
+      obtain ⟨r', hr', hs, _, hw⟩ := h2 _ hm
+      have : r' = c := h1 r' hr' c hc hs
+      subst this
+      exact hw
+    · intro hm
+      exact h3 c hc (by rw [hce]; exact he) t hm
+  unfold nsearch nmatching nestedBy
+  congr 2
+  apply List.map_congr_left
+  intro p _
+  unfold kidsOf
+  congr 3
+  apply List.filter_congr
+  intro c hc
+  by_cases hce : c.ent = 0
+  · simp only [hce, decide_true, Bool.true_and]
+    rw [key c hc hce]
+  · simp [hce]
+
 /-! ### the maintenance rule preserves the agreement -/
 
 theorem nodup_map_inj {l : List Row} (h : (l.map (·.n)).Nodup) {a b : Row} (ha : a ∈ l) (hb : b ∈ l)
